@@ -608,9 +608,7 @@ func c21GenHistory(rt *rapid.T) c21History {
 			n = rapid.IntRange(len(ref.WBang), len(ref.WStar)).Draw(rt, "n")
 		}
 		h.Blocks = append(h.Blocks, c21Block{Gap: gap, Reports: W, N: n})
-		for k := range st.Xi[0] {
-			retired = append(retired, k)
-		}
+		retired = append(retired, st.Xi[0].sorted()...) // sorted: no map-order dependence in the generator
 		st = c21RefAdvance(st, slot, ref, n)
 	}
 	return h
